@@ -275,7 +275,26 @@ class Server:
                                      cwd=self.dir, env=env, stdout=open(self.stderr_path, "ab"),
                                      stderr=subprocess.STDOUT, start_new_session=True)
         self.master_pid = self.proc.pid
+        self.sid = self.master_pid
         self.t_start = time.monotonic()
+        if self.settings.get("daemon"):
+            # the launcher double-forks and exits; the daemonized master (adopted by this subreaper) names itself in the pid file
+            pf = self.settings.get("pidfile")
+            t0 = time.monotonic()
+            self.master_pid = None
+            while time.monotonic() - t0 < 15 and pf:
+                self.reap()
+                try:
+                    with open(pf) as f:
+                        self.master_pid = int(f.read().strip())
+                    break
+                except (OSError, ValueError):
+                    time.sleep(0.05)
+            if self.master_pid:
+                try:
+                    self.sid = os.getsid(self.master_pid)
+                except OSError:
+                    self.sid = self.master_pid
         return self
 
     # ---- observation ----------------------------------------------------------------------
@@ -401,7 +420,7 @@ class Server:
     def session_pids(self):
         """Every live process of the server's session (master(s) and workers of all generations)."""
         out = []
-        sid = self.master_pid
+        sid = getattr(self, "sid", None) or self.master_pid
         for d in os.listdir("/proc"):
             if d.isdigit():
                 try:
